@@ -125,7 +125,7 @@ def l3_ack_payload_interop(ctx, tx_kind, rx_kind):
 
 
 LITE_CALLS = ("channel", "data_rate", "pa_level", "arc", "ard", "dyn", "payload_length", "ack", "power", "listen", "address_length",
-              "interrupt_config", "open_rx_pipe", "close_rx_pipe", "open_tx_pipe")
+              "interrupt_config", "open_rx_pipe", "close_rx_pipe", "open_tx_pipe", "write")
 
 
 def l4_config(ctx, calls):
@@ -236,6 +236,11 @@ def l4_config(ctx, calls):
                 g[2] = g[2] & ~(1 << pc)
                 if pc == 0:
                     user_p0 = None
+            elif name == "write":
+                # write() wakes the radio up / leaves RX mode by itself: PWR_UP = 1, PRIM_RX = 0, every other CONFIG bit untouched
+                valid = True
+                nrf.write(b"wake")
+                g[0] = s_ite((g[0] & 3) != 2, (g[0] & 0x7C) | 2, g[0])
             elif name == "open_tx_pipe":
                 addr = ctx.bytes(t, 5)
                 valid = True
@@ -334,7 +339,7 @@ def jobs(tier):
     # L4
     seqs = [(c,) for c in LITE_CALLS]
     pairs = [(a, b) for a in LITE_CALLS for b in LITE_CALLS]
-    seqs += pairs if tier == "thorough" else [p for i, p in enumerate(pairs) if i % 3 == 0 or p[0] in ("listen", "ack", "open_rx_pipe")]
+    seqs += pairs if tier == "thorough" else [p for i, p in enumerate(pairs) if i % 3 == 0 or p[0] in ("listen", "ack", "open_rx_pipe") or p[1] == "write"]
     seqs += [("open_rx_pipe", "open_tx_pipe", "listen"), ("open_rx_pipe", "close_rx_pipe", "listen"), ("ack", "dyn", "payload_length")]
     for s in seqs:
         out.append(Job("L4-configuration", l4_config, dict(calls=list(s)), cost=len(s)))
